@@ -649,6 +649,10 @@ fn lexer_case(id: &mut usize, kind: &str, text: &str) {
             if bad.is_none() && pos != text.len() {
                 bad = Some(format!("lexemes cover {pos} of {} bytes", text.len()));
             }
+            if let Some((_, at)) = lx.iter().scan(0usize, |p, (k, l)| { let at = *p; *p += l; Some((*k, at)) }).find(|(k, _)| *k == 0) {
+                // the parser stops at the first Eof lexeme: everything after it would be dropped
+                emit_violation("lexer-eof-lexeme-inside-input", format!("the lexer yields an Eof lexeme at byte {at} of {}; input {:?}", text.len(), trunc(text, 200)), json!({"input": text}));
+            }
             if let Some(b) = bad {
                 emit_violation("lexer-lexemes-do-not-tile-input", format!("{b}; input {:?}", trunc(text, 200)), json!({"input": text}));
             }
